@@ -21,6 +21,10 @@ def shadings(draw, k, mode=None):
         chosen = []
     elif mode == "full":
         chosen = cells
+    elif mode == "purelines":
+        cols = draw(st.sets(st.integers(0, k), max_size=2))
+        rows = draw(st.sets(st.integers(0, k), max_size=2))
+        chosen = [c for c in cells if c[0] in cols or c[1] in rows]
     elif mode == "lines":
         cols = draw(st.sets(st.integers(0, k), max_size=k + 1))
         rows = draw(st.sets(st.integers(0, k), max_size=k + 1))
@@ -81,8 +85,11 @@ def pattern_target(draw, max_p=5, max_t=9):
     return [list(p), list(t)]
 
 
+COLOUR_VALUES = [0, 1, 2, None, "a"]  # colours are arbitrary comparable labels: ints, None, strings
+
+
 def colours(n):
-    return st.lists(st.integers(0, 2), min_size=n, max_size=n)
+    return st.lists(st.sampled_from(COLOUR_VALUES), min_size=n, max_size=n)
 
 
 def perm_sets(min_perms=1, max_perms=4, min_len=1, max_len=5):
